@@ -296,25 +296,28 @@ bool SemanticCheck(ParserState* state, RawNode root) {
         return false;
       }
     }
+    // Note: brackets are not nodes of the syntax tree and do not add to its nesting
+    const auto childDepth = id == TokenID::PUNC_PL ? depth : depth + 1;
     for (const auto& child: node->children) {
       stack.emplace_back(child.get());
       parents.emplace_back(node);
-      depths.emplace_back(depth + 1);
+      depths.emplace_back(childDepth);
     }
   }
   return true;
 }
 
 SyntaxTree::RawNode CreateNodeRecursive(Node& astNode) {
-  if (astNode.token.id == TokenID::PUNC_PL) {
-    return CreateNodeRecursive(*astNode.children.at(0));
-  } else {
-    auto result = std::make_unique<SyntaxTree::Node>(std::move(astNode.token));
-    for (const auto& child : astNode.children) {
-      result->AdoptChild(CreateNodeRecursive(*child));
-    }
-    return result;
+  // Note: brackets are skipped in a loop, only the nesting of the syntax tree is bounded
+  auto* source = &astNode;
+  while (source->token.id == TokenID::PUNC_PL) {
+    source = source->children.at(0).get();
   }
+  auto result = std::make_unique<SyntaxTree::Node>(std::move(source->token));
+  for (const auto& child : source->children) {
+    result->AdoptChild(CreateNodeRecursive(*child));
+  }
+  return result;
 }
 
 bool ParserState::CreateSyntaxTree(RawNode root) {
